@@ -27,8 +27,11 @@ keyed by the protected construct, so a deleted guard is a violated instance (exi
      copies only up to the first NUL, or the argument provably has none)             (found F4; fixed in /repo)
  TS  XML state machine: add_comment obligation closed at the end of the element that opened it, closer cannot run a
      second time; sibling sub-builders are reset before another one is opened / used; end handlers reset every
-     sub-builder before the object builder and commit afterwards                    (found F3; fixed in /repo)
- A1  abort / terminate / exit call sites are the frozen who-may-call list
+     sub-builder before the object builder and commit afterwards; members owning a sub-builder are declared after the member
+     owning its parent (destruction order when run() is left by an exception)      (found F3; fixed in /repo)
+ A1  abort / terminate / exit call sites are the frozen who-may-call list; decode_blob's abort() is unreachable by a checked
+     argument (only behind the initial-value case of the compression selector; selector and payload assigned together; an
+     emptiness test of the payload alone throws before the switch)
 
 Clauses of DESIGN.md section 5/C03 not implemented here, and why:
  * STALE-L/F over parser and builder code: run by the C04 module (same engine, same functions); not duplicated.
@@ -2073,6 +2076,49 @@ def ts_xml(fb, R):
         ok = bool(commits) and bool(oreset) and all(any(_before(efn, o, c) for o in oreset) for c in commits)
         R.check(ok, 'TS-end-closes-builders', key0 + ':commit-after-close', efn.site,
                 'the end of <%s> must commit the buffer after the object builder was reset (committing an object whose padding is not yet written)' % ctxname)
+    # ---- declaration order: a member that owns a sub-builder is declared after the member that owns its parent builder,
+    # so that it is destroyed first when the parser object dies with builders still open (run() left by an exception)
+    rec = fb.record(XMLP)
+    order = {f['name']: f['idx'] for f in rec.fields} if rec is not None else {}
+    parents = {}        # sub-builder field -> {parent field: site}
+    for fn in fb.functions:
+        if fn.cls != XMLP or not fn.has_cfg or fn.is_lambda:
+            continue
+        for ev in _field_events(fb, fn, fields, depth=0):
+            if ev.kind != 'open' or not isinstance(ev.extra, dict):
+                continue
+            for a in ev.extra.get('args', []) or []:
+                if a is None:
+                    continue
+                for x in fn.subtree(a):
+                    n = fn.nodes[x]
+                    if n.get('k') == 'member' and n.get('field') and n['name'] in fields and fn.is_this_member(x) and n['name'] != ev.field:
+                        parents.setdefault(ev.field, {}).setdefault(n['name'], fn.loc(ev.node))
+                    elif n.get('k') == 'var' and n.get('vk') == 'param':
+                        # the parent is handed in by the callers (get_tag(*m_way_builder, ...))
+                        pi = next((i for i, p in enumerate(fn.params) if p['d'] == n['d']), None)
+                        if pi is None:
+                            continue
+                        for g in fb.functions:
+                            if g.cls != XMLP or not g.has_cfg:
+                                continue
+                            for c in g.all_nodes():
+                                if c.get('k') == 'call' and c.get('u') == fn.usr and pi < len(c.get('args', []) or []) and c['args'][pi] is not None:
+                                    for y in g.subtree(c['args'][pi]):
+                                        m = g.nodes[y]
+                                        if m.get('k') == 'member' and m.get('field') and m['name'] in fields and g.is_this_member(y) and m['name'] != ev.field:
+                                            parents.setdefault(ev.field, {}).setdefault(m['name'], g.loc(c['id']))
+    if not parents:
+        R.broken('XMLParser: no sub-builder construction with a parent builder found')
+    for subf in sorted(parents):
+        for parf in sorted(parents[subf]):
+            ok = subf in order and parf in order and order[subf] > order[parf]
+            R.check(ok, 'TS-sub-builder-declared-after-parent', '%s#member-order:%s-after:%s' % (XMLP, subf, parf),
+                    '%s:%d' % (rec.file, rec.line) if rec is not None else parents[subf][parf],
+                    '%s owns a builder constructed on the builder owned by %s (%s) but is declared before it: members are destroyed in reverse '
+                    'declaration order, so when the parser is destroyed with both open (run() left by an exception inside an object) the '
+                    'parent is freed first and the sub-builder destructor writes padding / sizes through its dangling parent pointer'
+                    % (subf, parf, parents[subf][parf]))
     # ---- add_comment obligation
     openers = [e for e in sev if e.kind == 'opener']
     if not openers:
@@ -2220,6 +2266,96 @@ def a1_who_may_abort(fb, R):
                     'Reader::execute); hostile input must surface as an exception' % (fn.q, q))
 
 
+def a1_abort_premise(fb, R):
+    """decode_blob's abort() is accepted only because it is unreachable: (1) it can be reached only through the compression
+    switch, by the case of the selector's initial value; (2) the selector is only ever assigned other values, and the payload
+    view is only assigned together with the selector; (3) a test of the payload's emptiness alone whose empty edge throws lies
+    on every path to the switch.  Then selector == initial value implies payload empty implies thrown."""
+    rule = 'A1-abort-unreachable-premise'
+    for fn in fb.fns('osmium::io::detail::decode_blob'):
+        aborts = [c for c in fn.all_nodes() if c.get('k') == 'call' and (c.get('q') or c.get('name') or '') in _ABORTERS]
+        if not aborts:
+            continue
+        key = fn.q + '#abort'
+        pos = fn.positions()
+        sws = [b for b in fn.blocks.values() if b.get('termcls') == 'SwitchStmt' and 'cond' in b]
+        sel = None
+        for b in sws:
+            n = fn.sn(b['cond'])
+            if n is not None and n.get('k') == 'var' and n.get('vk') == 'local':
+                if any(path_search(fn, b['id'], lambda e, a=a: e == elem_of(fn, a['id']), lambda e: False, from_block_start=True) for a in aborts):
+                    sel = (b, n['d'])
+        if sel is None:
+            R.bad(rule, key, fn.loc(aborts[0]['id']), 'abort() is not behind a switch over a local selector: the recorded unreachability argument does not apply')
+            continue
+        sw, E = sel
+        v0 = None
+        for n in fn.all_nodes():
+            if n.get('k') == 'decl':
+                for v in n['vars']:
+                    if v['d'] == E and isinstance(v.get('init'), int):
+                        v0 = fn.const_value(v['init'])
+        msgs = []
+        if v0 is None:
+            msgs.append('the selector has no constant initial value')
+        # (1) abort only through the initial-value case
+        ok_edges = set()
+        for idx, s2 in enumerate(sw['succs']):
+            if s2 is None:
+                continue
+            lab = fn.blocks[s2].get('label') or {}
+            if 'case' in lab and fn.const_value(lab['case']) == v0:
+                ok_edges.add((sw['id'], idx))
+        tg = {elem_of(fn, a['id']) for a in aborts}
+        w = path_search(fn, fn.entry, lambda e: e in tg, lambda e: False, lambda b, i, s2: (b, i) not in ok_edges, from_block_start=True)
+        if w is not None:
+            msgs.append('abort() is reachable other than through the case of the selector\'s initial value: %s' % describe(fn, w))
+        # (2) selector only leaves its initial value; payload only assigned together with it
+        sel_blocks = set()
+        for n in fn.all_nodes():
+            if n.get('k') == 'assign':
+                l = fn.sn(n['lhs'])
+                if l is not None and l.get('k') == 'var' and l.get('d') == E:
+                    cv = fn.const_value(n['rhs'])
+                    if cv is None or cv == v0:
+                        msgs.append('the selector is assigned a value that is not a constant different from its initial value at %s' % fn.loc(n['id']))
+                    sel_blocks.add(pos[n['id']][0])
+        # payload candidates: class-type locals assigned (operator=) in every selector block
+        assigned = {}
+        for n in fn.all_nodes():
+            if n.get('k') == 'call' and n.get('op') == '=' and n.get('recv') is not None:
+                r = fn.sn(n['recv'])
+                if r is not None and r.get('k') == 'var' and r.get('vk') == 'local':
+                    assigned.setdefault(r['d'], set()).add(pos[n['id']][0])
+        payloads = [d for d, bl in assigned.items() if bl and bl <= sel_blocks and sel_blocks <= bl]
+        if not payloads:
+            msgs.append('no payload view that is assigned exactly where the selector is set')
+        # (3) emptiness test of the payload alone on every path to the switch
+        good = False
+        for P in payloads:
+            def is_empty(f, x, P=P):
+                n = f.sn(x)
+                return n is not None and n.get('k') == 'call' and _method_name(n.get('q', '')) == 'empty' and n.get('recv') is not None \
+                    and (f.sn(n['recv']) or {}).get('d') == P
+
+            def is_size(f, x, P=P):
+                n = f.sn(x)
+                return n is not None and n.get('k') == 'call' and _method_name(n.get('q', '')) in ('size', 'length') and n.get('recv') is not None \
+                    and (f.sn(n['recv']) or {}).get('d') == P
+            pe = classify_edges(fn, truthy(is_empty, want_true=False))
+            pe |= classify_edges(fn, equals(is_size, _is0, want_equal=False))
+            pe |= classify_edges(fn, lower_bound(is_size, _is01))
+            tgt = sw['elems'][-1] if sw['elems'] else None
+            if tgt is not None and pe and reaches_unchecked(fn, ['entry'], [tgt], pe) is None:
+                good = True
+        if payloads and not good:
+            msgs.append('the compression switch can be reached with an empty payload: the test that throws for "no payload" must test the '
+                        'emptiness of the payload alone and lie on every path to the switch (a Blob with raw_size but no data field would reach abort())')
+        R.check(not msgs, rule, key, fn.loc(aborts[0]['id']), '; '.join(msgs))
+    if not fb.fns('osmium::io::detail::decode_blob'):
+        R.broken('decode_blob not found')
+
+
 def run(ctx):
     R = ctx.R
     configs = ['ndebug14'] if ctx.tier == 'quick' else ['ndebug14', 'debug14', 'ndebug17', 'debug17']
@@ -2238,6 +2374,7 @@ def run(ctx):
         nul_layout(fb, R)
         ts_xml(fb, R)
         a1_who_may_abort(fb, R)
+        a1_abort_premise(fb, R)
     # instance floors: counted by hand on the pristine tree (see the rule table in the module docstring)
     R.expect('G1-stringtable-access-is-at', 5)          # decode_info, build_tag_list, decode_relation, dense tags, dense user
     R.expect('G1-out_of_range-mapped', 2)
@@ -2265,6 +2402,8 @@ def run(ctx):
     R.expect('TS-comment-obligation-closed', 1)
     R.expect('TS-comment-closer-once', 1)
     R.expect('A1-who-may-abort', 2)
+    R.expect('A1-abort-unreachable-premise', 1)
+    R.expect('TS-sub-builder-declared-after-parent', 7)  # tag list x 4 objects, way nodes, members, discussion
 
 
 def _selftest(fb, R):
@@ -2281,6 +2420,7 @@ def _selftest(fb, R):
         g9_utf8(fb, R)
         nul_layout(fb, R)
         a1_who_may_abort(fb, R)
+        a1_abort_premise(fb, R)
     finally:
         _SELFTEST[0] = False
 
@@ -2291,7 +2431,7 @@ SELFTESTS = [(r, 'c03_guards.cpp', _selftest) for r in (
     'G6-member-type-range-checked', 'G7-expat-callbacks-contained', 'G7-expat-exception-stored-and-parser-stopped',
     'G7-expat-entity-declarations-rejected', 'G7-expat-parse-error-rethrows-stored-first', 'G8-throws-std-exception',
     'G9-utf8-length-test-before-continuation', 'G9-utf8-case-reads-its-length', 'NUL-tag-strings-have-no-interior-nul',
-    'A1-who-may-abort')]
+    'A1-who-may-abort', 'A1-abort-unreachable-premise')]
 
 
 def _selftest_xml(fb, R):
@@ -2303,4 +2443,5 @@ def _selftest_xml(fb, R):
 
 
 SELFTESTS += [(r, 'c03_xml.cpp', _selftest_xml) for r in ('TS-sibling-builder-reset-first', 'TS-end-closes-builders',
-                                                              'TS-comment-obligation-closed', 'TS-comment-closer-once')]
+                                                              'TS-comment-obligation-closed', 'TS-comment-closer-once',
+                                                              'TS-sub-builder-declared-after-parent')]
